@@ -266,10 +266,24 @@ class Recorder:
             bnds = kw.get('bounds')
             cur = [(v.lb, v.ub) for v in vs]
             bounds_current = True if bnds is None else [tuple(b) for b in bnds] == cur
+            # the cost vector handed over must be the objective's coefficients for the parameters' CURRENT values:
+            # for an affine objective c_j = f(e_j) - f(0) (negated under maximisation)
+            params_current = True
+            try:
+                cpass = np.asarray(a[0] if a else kw.get('c'), dtype=float).reshape(-1)
+                zero = {v.name: 0.0 for v in vs}
+                f0 = float(np.asarray(prob._objective.evaluate(zero)).item())
+                ctrue = np.array([float(np.asarray(prob._objective.evaluate(dict(zero, **{v.name: 1.0}))).item()) - f0 for v in vs])
+                if prob._sense == 'maximize':
+                    ctrue = -ctrue
+                if len(cpass) == len(ctrue) and np.all(np.isfinite(ctrue)):
+                    params_current = bool(np.allclose(cpass, ctrue, rtol=1e-9, atol=1e-12))
+            except Exception:
+                params_current = True
             k = st.get('entries', 0)
             st['entries'] = k + 1
             R.emit(prob, ev='SolverEnter', k=k, fn='linprog', optsOK=True, method=str(kw.get('method')), has_jac=False, has_hess=False,
-                   hook_swapped=False, n_cons=0, rebuilt=bool(rebuilt), bounds_current=bool(bounds_current), params_current=True)
+                   hook_swapped=False, n_cons=0, rebuilt=bool(rebuilt), bounds_current=bool(bounds_current), params_current=bool(params_current))
             try:
                 r = (R.inner_linprog or R.real['linprog'])(*a, **kw)
             except BaseException as e:
